@@ -80,6 +80,9 @@ func genC17(r *simrt.RNG, tier string, variant int) Plan {
 	if p.Family == "blackhole" {
 		p.Faults = []Fault{{Kind: Pick(r, []string{"blackhole-both", "blackhole"}), Dir: "s2c", Pipe: 0, Frame: -1}}
 		p.Params["bh_after"] = int64(float64(T) * Pick(r, []float64{0.05, 0.7, 2.3, 6}))
+		if r.Bool(0.4) {
+			p.Params["chatter"] = 1
+		}
 		// calls pending at the black hole must not have been answered yet
 		for i := range p.Ops {
 			if p.Ops[i].Kind == "call" {
@@ -127,6 +130,17 @@ func runC17(e *Env, p *Plan) {
 		e.N.Inject(f[0].Pipe, f[0].Kind, f[0].Dir, 0)
 		tbh := e.S.Now()
 		bound := 3*T + 2*P
+		if p.Param("chatter", 0) > 0 {
+			// the application keeps calling while the peer is silent: outgoing
+			// traffic must not be mistaken for a sign of life
+			e.S.Go("chatter", func() {
+				for i := 0; i < 12; i++ {
+					w.Start(Op{Kind: "call", Client: 0, Tok: 500 + i}, nil)
+					time.Sleep(T / 3)
+				}
+			})
+			e.Probe("calls-keep-coming-during-black-hole")
+		}
 		if !e.S.Settle(bound + 2*dur(p.Clients[0].BackoffMax) + time.Second) {
 			return
 		}
